@@ -28,9 +28,9 @@ type VerifC13ModeOp struct {
 
 // VerifC13Modes is a copy of the input-related fields of mode.
 type VerifC13Modes struct {
-	Deckpam, Decckm, Paste                        bool
+	Deckpam, Decckm, Paste                         bool
 	MouseButtons, MouseDrag, MouseMotion, MouseSGR bool
-	AltScroll, Smcup                              bool
+	AltScroll, Smcup                               bool
 }
 
 // VerifC13Term is an emulator without child: the PTY is replaced by a pipe.
